@@ -1,11 +1,75 @@
-"""Per-property configuration of the check driver."""
+"""Per-property configuration of the check driver.
 
-L0_DECIMAL = "assumed L0 model of rust_decimal::Decimal (vx/prelude/rust_decimal_*.rs): machine decimal arithmetic treated as mathematical"
+verus: list of (group, unit-filter) — a failed obligation counts for the property only when it lies in one of the
+       listed units (None = every unit of the group).  A group that is inconclusive makes the property inconclusive.
+kani:  harness names (kx/harnesses.py) per tier.
+family: replay family (replay/src/*.rs) used to look for a concrete failing input after an obligation failed
+        (and, in the thorough tier, as a bounded sweep of the executable twin of the spec on the real code).
+"""
+
+L0_DECIMAL = "assumed L0 model of rust_decimal::Decimal (vx/prelude/rust_decimal.rs): machine decimal arithmetic treated as mathematical (exact, total + - *; / requires non-zero divisor; rounding only constrained to keep zero and sign)"
+L0_HANDLES = "assumed: Commodity/Account are Copy handles whose Eq/Hash is identity and obey the HashMap key model (vx/prelude/handles.rs)"
+L0_STD = "assumed std specs added by hand: Entry::or_default, Option::{copied,or,replace}, u8::is_ascii_digit (vx/prelude/std_gaps*.rs); vstd's own specs of HashMap/Vec/Option/Result"
+L1_AMOUNT = ("assumed contracts on repo functions neither verifier can take (L1, bodies dropped by R16): Amount::{is_zero, remove_zero_entries, maybe_pair, round, negate, check_div}, "
+             "AddAssign<Amount>/SubAssign/MulAssign<Decimal> for Amount (HashMap::iter_mut / retain / zip / into_iter)")
+L1_BOOK = "assumed contracts (L1): ComputedPosting::{compute_from_syntax, calculate_converted_amount} (closures over &mut ctx + Option::transpose), Evaluable::eval_mut as a deterministic function of (expr, ctx) that only extends the stores, PriceRepositoryBuilder::insert_impl (requires non-zero divisor)"
+STUBS = "hand-written stand-ins for GAT syntax types (vx/prelude/syntax_stub.rs) and ReportContext (ctx_stub.rs): exactly the fields read; rustc type-checks extracted bodies against them"
+
+BOOK_UNITS_C01 = ["check_balance", "ComputedPosting::calculate_balance_amount", "Exchange::is_zero", "Exchange::exchange", "Exchange::try_from_syntax",
+                  "posting_price_event", "add_transaction", "PriceRepositoryBuilder::insert_price", "callsite:insert_impl division"]
 
 PROPS = {
+    "C01": {
+        "level": "proof",
+        "verus": [("bookkeep", BOOK_UNITS_C01), ("amounts", ["SingleAmount::with_sign_of", "Mul<Decimal> for SingleAmount", "AddAssign<PostingAmount> for Amount", "AddAssign<SingleAmount> for Amount", "TryFrom<PostingAmount> for SingleAmount"])],
+        "family": ("c01", {"quick": ["quick"], "thorough": ["thorough"]}),
+        "explanation": "Verus proves on the text of /repo: check_balance returns Ok only if the rounded per-commodity totals are all zero or exactly two non-zero totals of opposite sign remain, "
+                       "always accepts an all-zero total, and otherwise returns UnbalancedPostings without dividing by zero; each posting is valued at lot price, else cost, else its own amount; "
+                       "exchanges with zero rate / no commodity / same commodity are rejected; add_transaction's running total is the sum of those balancing values, a single omitted amount "
+                       "receives its negation, two omitted amounts are an error, and otherwise check_balance decides (any number of postings and commodities, any prior balance).",
+        "units_doc": ["core/src/report/book_keeping.rs: check_balance, add_transaction, posting_price_event, Exchange::{is_zero,exchange,try_from_syntax}, ComputedPosting::calculate_balance_amount",
+                      "core/src/report/price_db.rs: PriceRepositoryBuilder::insert_price (+ division slice of insert_impl)",
+                      "core/src/report/eval/*: SingleAmount::with_sign_of, Mul<Decimal>, Amount += PostingAmount/SingleAmount"],
+        "assumptions": [L0_DECIMAL, L0_HANDLES, L0_STD, L1_AMOUNT, L1_BOOK, STUBS,
+                        "R10: the loop that fills converted_amount in check_balance is dropped (its two divisions are kept as obligations; it only assigns p.converted_amount)"],
+        "not_decided": ["the winnow parser producing the syntax tree", "Amount::round / maybe_pair / is_zero bodies (L1)"],
+    },
+    "C02": {
+        "level": "proof",
+        "verus": [("bookkeep", ["process_posting", "add_transaction"]), ("balance", ["Balance::add_posting_amount"]), ("amounts", ["Amount::assert_balance", "Amount::get_part", "Amount::is_absolute_zero"])],
+        "family": ("c02", {"quick": ["quick"], "thorough": ["thorough"]}),
+        "explanation": "Verus proves: process_posting adds the posting to exactly that account (whole-balance postcondition, zero entries removed), and when it returns Ok with `= X` present the assertion "
+                       "holds on the updated holdings (X's commodity equals X exactly; bare `= 0` means nothing non-zero is held); a false assertion yields BalanceAssertionFailure carrying the posting's "
+                       "account span and the assertion's span; postings are processed in vector (file) order by add_transaction's loop.",
+        "units_doc": ["core/src/report/book_keeping.rs: process_posting, add_transaction", "core/src/report/balance.rs: Balance::add_posting_amount", "core/src/report/eval/amount.rs: assert_balance, get_part, is_absolute_zero"],
+        "assumptions": [L0_DECIMAL, L0_HANDLES, L0_STD, L1_AMOUNT, L1_BOOK, STUBS, "R4: format!(..) of the computed/diff amounts is opaque message text"],
+        "not_decided": ["that the error text prints the computed balance (Display plumbing)", "aliases/includes reaching the same account (C12/C11)"],
+    },
+    "C03": {
+        "level": "proof",
+        "verus": [("bookkeep", ["process_posting", "add_transaction"]), ("balance", ["Balance::set_partial", "Balance::add_amount"]),
+                  ("amounts", ["Amount::set_partial", "PostingAmount::check_sub", "PostingAmount::check_add", "Neg for PostingAmount", "SingleAmount::check_add", "SingleAmount::check_sub", "TryFrom<&Amount> for PostingAmount"])],
+        "family": ("c03", {"quick": ["quick"], "thorough": ["thorough"]}),
+        "explanation": "Verus proves: `Account = X` without amount yields exactly X minus the account's holding in that commodity (bare `= 0`: minus its whole single-commodity holding), leaves the account at X and "
+                       "changes no other account; `= 0` on several commodities is an error; the single omitted posting receives the negated sum of balancing values in as many commodities as needed, is booked "
+                       "on its own account only, and two or more unconstrained postings are rejected.",
+        "units_doc": ["core/src/report/book_keeping.rs: process_posting, add_transaction", "core/src/report/balance.rs: Balance::{set_partial, add_amount}", "core/src/report/eval/{amount,posting_amount,single_amount}.rs"],
+        "assumptions": [L0_DECIMAL, L0_HANDLES, L0_STD, L1_AMOUNT, L1_BOOK, STUBS],
+        "not_decided": [],
+    },
+    "C04": {
+        "level": "proof",
+        "verus": [("daterange", None), ("balance", ["Balance::add_amount", "Balance::add_posting_amount"])],
+        "explanation": "Verus proves (a) DateRange::contains is exactly start <= d < end with open ends as infinity, adjacent windows partition their union and empty windows contain nothing, "
+                       "is_bypass/require_recompute choose the stored balance only for an unbounded window without per-posting conversion; (b) every update of the running Balance adds the posting to that "
+                       "account only and never stores a zero-valued commodity.  The re-fold in Ledger::balance and the register's running total are iterator-adapter code and are NOT decided.",
+        "units_doc": ["core/src/report/query.rs: DateRange::{contains,is_bypass}, BalanceQuery::require_recompute", "core/src/report/balance.rs: Balance::{add_amount, add_posting_amount}"],
+        "assumptions": ["assumed L0 model of chrono::NaiveDate: a totally ordered day number (vx/prelude/chrono.rs)", L0_DECIMAL, L0_HANDLES, L0_STD, L1_AMOUNT],
+        "not_decided": ["Ledger::balance re-fold (flat_map/filter_map closures), Balance::round, RegisterCmd running total"],
+    },
     "C07": {
         "level": "proof",
-        "verus": ["prettydec"],
+        "verus": [("prettydec", None)],
         "kani": {"quick": [], "thorough": []},
         "family": ("c07", {"quick": ["4"], "thorough": ["6"]}),
         "explanation": "Verus discharges, for strings of every length, that PrettyDecimal::from_str (text extracted from /repo on this run) "
@@ -20,6 +84,28 @@ PROPS = {
         ],
         "not_decided": ["token extent of numbers inside the winnow parser (primitive::pretty_decimal)"],
     },
+    "C08": {
+        "level": "proof",
+        "verus": [("evaluated", None), ("amounts", None)],
+        "family": ("c08", {"quick": ["quick"], "thorough": ["thorough"]}),
+        "explanation": "Verus proves the typing rules of evaluation on the real functions: number+number and amount+amount (pointwise, per commodity) are the only sums, amount*number / number*amount the only "
+                       "products with an amount, division by zero (number or all-zero amount) is DivideByZero, number/amount needs a single-commodity amount, amount/amount and number+amount are UnmatchingOperation; "
+                       "conversions to SingleAmount / PostingAmount accept exactly one / at most one commodity and reject non-zero bare numbers.",
+        "units_doc": ["core/src/report/eval/evaluated.rs: Evaluated::{check_add,check_sub,check_mul,check_div,negate,is_zero,from_expr_amount,from_expr_amount_mut} and its TryFrom/From impls",
+                      "core/src/report/eval/{amount,single_amount,posting_amount}.rs: 40 functions"],
+        "assumptions": [L0_DECIMAL, L0_HANDLES, L0_STD, L1_AMOUNT, "ReportContext stand-in (ctx_stub.rs): CommodityStore::{ensure,resolve} as assumed interface of InternStore (proved in C12)"],
+        "not_decided": ["precedence/associativity as produced by the winnow parser (parse/expr.rs)"],
+    },
+    "C19": {
+        "level": "proof",
+        "verus": [("columns", None)],
+        "explanation": "Verus proves the column arithmetic of formatted postings on get_column, Alignment::{absolute,plus} and on the two get_column call expressions sliced out of Display for Posting: "
+                       "padding is always >= 2, a short account makes the amount's numeric part end at column 52 and a balance-only posting's `=` land where it would after an amount; the indent literals "
+                       "of posting and metadata lines are exactly four spaces.",
+        "units_doc": ["core/src/syntax/display.rs: get_column, Alignment::{absolute,plus}, call-site slices get_column(48, ..) / get_column(50 + trailing, ..), format-string literal slices"],
+        "assumptions": ["fmt plumbing ({:>width$}), unicode-width and fmt_with_alignment's returned offset are not verified", "widths < 2^30"],
+        "not_decided": ["fmt_with_alignment offsets, unicode width, entry separation in format.rs"],
+    },
 }
 
 
@@ -28,6 +114,4 @@ def trusted_base(pid):
     P = PROPS[pid]
     if P.get("kani", {}).get("quick") or P.get("kani", {}).get("thorough"):
         base.append("Kani 0.68 / CBMC 6.11")
-    if any(g for g in P.get("verus", [])):
-        base.append(L0_DECIMAL)
     return base
